@@ -186,6 +186,48 @@ Definition isolated_ok_b (g : graph) (m0 : nat) (cover : list clique) : bool :=
     implb (Nat.leb (length K) m0 && forallb (fun K' => list_eqb K' K || negb (share_edgeb K K')) mc)
           (existsb (same_setb K) cover)) mc.
 
+(* ---- the same clause without enumerating maximal cliques (polynomial; Proofs/EeccFastP.v) ----
+   On a loop-free graph a maximal clique K shares no edge with a different maximal clique exactly when no vertex
+   outside K has two neighbours in K (every common neighbour of two members is a member); such a K is, for each
+   of its edges {u,v}, the set {u,v} + common neighbours of u and v.  So there is one candidate per edge; each
+   isolated maximal clique is examined once, at the edge joining its two smallest vertices. *)
+(* neighbours of v as the edge list gives them (repeats possible when an edge is listed twice) *)
+Definition nbrs (g : graph) (v : nat) : list nat :=
+  flat_map (fun e => if Nat.eqb (fst e) v then [snd e] else if Nat.eqb (snd e) v then [fst e] else []) g.
+
+(* adjacency table, one row per vertex, computed once *)
+Definition adjtab (g : graph) : list (nat * list nat) := map (fun v => (v, nbrs g v)) (verts g).
+Definition nb (tab : list (nat * list nat)) (v : nat) : list nat :=
+  match find (fun p => Nat.eqb (fst p) v) tab with Some p => snd p | None => [] end.
+
+(* u, v and their common neighbours, ascending (N = neighbour lists, vs = the ascending vertex list) *)
+Definition cand (N : nat -> list nat) (vs : list nat) (u v : nat) : clique :=
+  let Nu := N u in let Nv := N v in
+  filter (fun w => Nat.eqb w u || Nat.eqb w v || (memb w Nu && memb w Nv)) vs.
+
+Definition clique_fast (N : nat -> list nat) (K : clique) : bool :=
+  forallb (fun a => let Na := N a in forallb (fun b => Nat.eqb a b || memb b Na) K) K.
+
+(* no vertex outside K has two neighbours in K *)
+Definition closed_fast (N : nat -> list nat) (vs : list nat) (K : clique) : bool :=
+  forallb (fun w => memb w K || (let Nw := N w in Nat.leb (length (filter (fun a => memb a Nw) K)) 1)) vs.
+
+(* K begins with the two ends of the edge *)
+Definition first_two (K : clique) (u v : nat) : bool :=
+  match K with
+  | a :: b :: _ => Nat.eqb a (Nat.min u v) && Nat.eqb b (Nat.max u v)
+  | _ => false
+  end.
+
+Definition isolated_ok_fast_b (g : graph) (m0 : nat) (cover : list clique) : bool :=
+  let vs := verts g in
+  let tab := adjtab g in
+  let N := nb tab in
+  forallb (fun e =>
+    let K := cand N vs (fst e) (snd e) in
+    implb (first_two K (fst e) (snd e) && Nat.leb (length K) m0 && clique_fast N K && closed_fast N vs K)
+          (existsb (same_setb K) cover)) g.
+
 Definition outcome_ok (g : graph) (m0 : nat) (o : list clique * graph * nat) : bool :=
   let '(cover, g', st) := o in
   Nat.eqb st 0 && negb (nonemptyb g') && exact_cover_b g m0 cover && isolated_ok_b g m0 cover.
@@ -242,6 +284,17 @@ Definition c09_check_cover (t : tree) : tree :=
   let m0 := t_nat (t_nth 1 t) in
   let cover := t_natss (t_nth 2 t) in
   L [of_bool (exact_cover_b g m0 cover); of_bool (negb (t_bool (t_nth 3 t)))].
+
+(* c09_check_full_fast  (edges m0 cover has_edges_after)  ->  (exact_cover graph_empty isolated_intact)
+   all three clauses of c09_check, the third decided by isolated_ok_fast_b (no maximal-clique enumeration): judges
+   covers of graphs far beyond the reach of the brute-force model (Proofs/EeccFastP.v: its answers are those of
+   c09_check for every tree, and its third answer is 1 exactly when IsolatedIntact holds) *)
+Definition c09_check_full_fast (t : tree) : tree :=
+  let g := norm_graph (t_pairs (t_nth 0 t)) in
+  let m0 := t_nat (t_nth 1 t) in
+  let cover := t_natss (t_nth 2 t) in
+  L [of_bool (exact_cover_b g m0 cover); of_bool (negb (t_bool (t_nth 3 t)));
+     of_bool (isolated_ok_fast_b g m0 cover)].
 
 (* c09_fl  (k order)  ->  the float score after k additions of 1.0/binom(order,2), as (num den) *)
 Definition c09_fl (t : tree) : tree :=
